@@ -94,7 +94,77 @@ static void op_pc_param(int argc, char **argv) {
 	fprintf(OUT, " a2="); fp2_printx(ep2_curve_get_a()); fprintf(OUT, " b2="); fp2_printx(ep2_curve_get_b());
 	fprintf(OUT, " g2="); fp2_printx(g2->x); fputc(',', OUT); fp2_printx(g2->y);
 	fprintf(OUT, " gt="); fp12_out(e);
-	fprintf(OUT, " family=%d\n", ep_curve_is_pairf());
+	fprintf(OUT, " family=%d", ep_curve_is_pairf());
+	/* what pp_exp_k12 / pp_map_k12 switch on, BY NAME (the enum values are not part of the contract), and the sparse form of
+	 * the curve parameter the final exponentiation and the Miller loop iterate over */
+	fprintf(OUT, " famname=%s parname=%s", ep_curve_is_pairf() == EP_BN ? "EP_BN" : ep_curve_is_pairf() == EP_B12 ? "EP_B12" : "other",
+		ep_param_get() == SM9_P256 ? "SM9_P256" : "other");
+	{
+		int l = 0; const int *b = fp_prime_get_par_sps(&l);
+		fprintf(OUT, " sps=");
+		if (l == 0 || b == NULL) fprintf(OUT, ".");
+		for (int i = 0; i < l; i++) fprintf(OUT, "%s%d", i ? "," : "", b[i]);
+	}
+	fputc('\n', OUT);
+}
+
+/* fexp sep|ali <a> : the final exponentiation pp_exp_k12 on an ARBITRARY element of Fp12 (not only Miller-loop outputs);
+ * "ali": result written over the operand (how pp_map_* call it) */
+static void op_fexp(int argc, char **argv) {
+	if (argc < 3) { fprintf(OUT, "bad-args\n"); return; }
+	int caught = 0; fp12_t a, c;
+	fp12_null(a); fp12_new(a); fp12_null(c); fp12_new(c);
+	if (!fp12_tok(a, argv[2])) { fprintf(OUT, "bad-args\n"); return; }
+	fp12_zero(c);
+	RLC_TRY {
+		if (!strcmp(argv[1], "ali")) { fp12_copy(c, a); pp_exp_k12(c, c); }
+		else if (!strcmp(argv[1], "sep")) pp_exp_k12(c, a);
+		else { fprintf(OUT, "unknown-fexp\n"); return; }
+	} RLC_CATCH_ANY { caught = 1; }
+	if (take_err() || caught) fprintf(OUT, "err"); else fp12_out(c);
+	fputc('\n', OUT);
+}
+
+/* fcyc sep|ali <a> : fp12_conv_cyc, the easy part (p^6 - 1)(p^2 + 1) */
+static void op_fcyc(int argc, char **argv) {
+	if (argc < 3) { fprintf(OUT, "bad-args\n"); return; }
+	int caught = 0; fp12_t a, c;
+	fp12_null(a); fp12_new(a); fp12_null(c); fp12_new(c);
+	if (!fp12_tok(a, argv[2])) { fprintf(OUT, "bad-args\n"); return; }
+	fp12_zero(c);
+	RLC_TRY {
+		if (!strcmp(argv[1], "ali")) { fp12_copy(c, a); fp12_conv_cyc(c, c); }
+		else fp12_conv_cyc(c, a);
+	} RLC_CATCH_ANY { caught = 1; }
+	if (take_err() || caught) fprintf(OUT, "err"); else fp12_out(c);
+	fputc('\n', OUT);
+}
+
+/* expsps sep|ali <a> pos|neg <b0,b1,...|.> : fp12_exp_cyc_sps on a (cyclotomic) element with an arbitrary sparse form */
+static void op_expsps(int argc, char **argv) {
+	if (argc < 5) { fprintf(OUT, "bad-args\n"); return; }
+	int caught = 0, b[64], l = 0; fp12_t a, c;
+	fp12_null(a); fp12_new(a); fp12_null(c); fp12_new(c);
+	if (!fp12_tok(a, argv[2])) { fprintf(OUT, "bad-args\n"); return; }
+	if (strcmp(argv[4], ".")) {
+		const char *p = argv[4];
+		while (*p && l < 64) {
+			int v = parse_int(p);
+			/* bound the number of squarings the line can ask for */
+			if (v > 4096 || v < -4096) { fprintf(OUT, "bad-args\n"); return; }
+			b[l++] = v;
+			p = strchr(p, ',');
+			if (!p) break;
+			p++;
+		}
+	}
+	fp12_zero(c);
+	RLC_TRY {
+		if (!strcmp(argv[1], "ali")) { fp12_copy(c, a); fp12_exp_cyc_sps(c, c, b, l, !strcmp(argv[3], "neg") ? RLC_NEG : RLC_POS); }
+		else fp12_exp_cyc_sps(c, a, b, l, !strcmp(argv[3], "neg") ? RLC_NEG : RLC_POS);
+	} RLC_CATCH_ANY { caught = 1; }
+	if (take_err() || caught) fprintf(OUT, "err"); else fp12_out(c);
+	fputc('\n', OUT);
 }
 
 /* pcv g1|g2|gt <element> : the validity predicates */
@@ -278,5 +348,6 @@ static void op_pps(int argc, char **argv) {
 const op_t ops_pc[] = {
 	{"pc_param", op_pc_param}, {"pcv", op_pcv}, {"gtel", op_gtel}, {"g1m", op_gm}, {"g2m", op_gm}, {"g1s", op_gs}, {"g2s", op_gs},
 	{"gte", op_gte}, {"pp", op_pp}, {"ppb", op_ppb}, {"pps", op_pps},
+	{"fexp", op_fexp}, {"fcyc", op_fcyc}, {"expsps", op_expsps},
 	{NULL, NULL}
 };
